@@ -418,9 +418,9 @@ func (c *checker) expr1(e *Expr) *Type {
 		return c.lookup(e.Name)
 	case EBin:
 		switch {
-		case e.Op == "+" || e.Op == "-" || e.Op == "*":
-			if c.opts.Tiny && e.Op == "*" {
-				c.fail("tiny: no *")
+		case e.Op == "+" || e.Op == "-" || e.Op == "*" || e.Op == "/":
+			if c.opts.Tiny && (e.Op == "*" || e.Op == "/") {
+				c.fail("tiny: no %s", e.Op)
 			}
 			c.want(e.Args[0], tInt, e.Op)
 			c.want(e.Args[1], tInt, e.Op)
@@ -459,7 +459,9 @@ func (c *checker) expr1(e *Expr) *Type {
 		if t1.K == TFun {
 			c.fail("if of function type")
 		}
-		if t1.K == TUnit && tailIfOnly(e.Blocks[0]) {
+		if t1.K == TUnit && tailIfOnly(e.Blocks[0]) && (c.opts.Tiny || !oneLineIfOnly(e.Blocks[0].E)) {
+			// (a last statement `if c then e` that fits on one line is printed on one line; the else that
+			// follows on a less indented line then belongs to the outer if)
 			c.fail("then-block ends in an if without else (fc attaches the following else to it)")
 		}
 		return t1
